@@ -25,3 +25,7 @@ package comparison
 //@   ensures result1 == nil <==> snd(GenerateMD5PodTemplateSpec(&daemonset.Spec.Template)) == nil
 //@   ensures same-map-unless-nil: old(rs.ObjectMeta.Annotations) != nil ==> rs.ObjectMeta.Annotations == old(rs.ObjectMeta.Annotations)
 //@   ensures fresh-map-if-nil: old(rs.ObjectMeta.Annotations) == nil && result1 == nil ==> fresh(rs.ObjectMeta.Annotations)
+//@ func GenerateHashFromEDSResourceNodeAnnotation
+//@   pure
+//@   trusted
+//@   reads nothing
